@@ -399,6 +399,7 @@ def check_property(prop, tier, seed, replay=None):
             if sres:
                 snew, sseen = split(sres["failures"])
                 violations = snew
+                failures = failures + sres["failures"]  # the summary counts both runs (known <= failures)
                 for k, v in sseen.items():
                     seen.setdefault(k, []).extend(v)
 
